@@ -124,7 +124,10 @@ def by_qualname(qualname):
         for name in rest[:-1]:
             obj = getattr(obj, name)
         cls = obj if inspect.isclass(obj) else None
-        live = inspect.getattr_static(obj, rest[-1])
+        lname = rest[-1]
+        if lname.startswith('__') and not lname.endswith('__') and cls is not None:
+            lname = '_%s%s' % (cls.__name__.lstrip('_'), lname)
+        live = inspect.getattr_static(obj, lname)
     except AttributeError:
         raise FunctionNotFound(qualname)
     live = _unwrap(live)
